@@ -6,6 +6,7 @@ import (
 	"fmt"
 	"math/big"
 	"sort"
+	"strings"
 	"sync"
 	"time"
 
@@ -252,3 +253,89 @@ func violateOnce(res *lib.Result, sig string, mk func() lib.Violation) {
 
 func timeNow() time.Time          { return time.Now() }
 func msSince(t time.Time) int     { return int(time.Since(t).Milliseconds()) }
+
+// ---- pins of behaviour OUTSIDE the input space of the property (leads, see notes/C01.md) ------------------
+//
+// These inputs are excluded by the assumptions in checks/c01.json. The probe records what the tree under
+// test does with them (distribution keys `probe:*`), so that a change of that behaviour is visible; nothing
+// here is judged.
+func probeLeads(res *lib.Result) {
+	// 1. a trie key >= 2^height: core/trie2 truncates the key (aliases key mod 2^height), core/trie errors
+	for _, h := range []uint8{64, 251} {
+		big1 := new(big.Int).Add(new(big.Int).Lsh(big.NewInt(1), uint(h)), big.NewInt(5))
+		k := felt.NewFromBytes[felt.Felt](big1.Bytes())
+		five, v := felt.FromUint64[felt.Felt](5), felt.FromUint64[felt.Felt](9)
+		for _, b := range []struct {
+			name string
+			be   core.TempTrieBackend
+		}{{"trie2", core.TrieBackend}, {"legacy", core.DeprecatedTrieBackend}} {
+			what := "rejects"
+			err, panicked, _ := lib.Try(func() error {
+				return runTemp(b.be, h, func(t core.Trie) error {
+					if err := t.Update(k, &v); err != nil {
+						return err
+					}
+					got, err := t.Get(&five)
+					if err != nil {
+						return err
+					}
+					if got.Equal(&v) {
+						what = "aliases-key-mod-2^height"
+					} else {
+						what = "accepts-without-alias"
+					}
+					return nil
+				})
+			})
+			if panicked {
+				what = "panics"
+			} else if err != nil {
+				what = "rejects"
+			}
+			res.Hit(fmt.Sprintf("probe:key-out-of-range:h%d:%s-%s", h, b.name, what))
+		}
+	}
+	// 2. unparsable protocol version with an empty class trie and a non-empty contract trie
+	for _, nw := range []bool{true, false} {
+		c := &StateCase{Blocks: []SBlock{{Version: "0.x.1", Deployed: map[string]string{"abc": "c1a55"}}}}
+		t := runOldState(c)
+		name := "deprecatedstate"
+		if nw {
+			t = runNewState(c)
+			name = "state"
+		}
+		what := "accepts"
+		if strings.HasPrefix(t.Err, "panic") {
+			what = "panics"
+		} else if t.Err != "" {
+			what = "rejects"
+		}
+		res.Hit("probe:unparsable-version:" + name + "-" + what)
+	}
+	// 3. deploy at a system address: the abstract state has a contract with a class at 0x2
+	{
+		c := &StateCase{Blocks: []SBlock{{Version: "0.13.2", Deployed: map[string]string{"2": "c1a55"}}}}
+		want, _ := specStateTrace(c)
+		for _, nw := range []bool{true, false} {
+			t := runOldState(c)
+			name := "deprecatedstate"
+			if nw {
+				t = runNewState(c)
+				name = "state"
+			}
+			what := "root-of-abstract-state"
+			if t.Err != "" {
+				what = "rejects"
+			} else if at(t.Roots, 0) == "0" {
+				what = "root-zero-record-purged"
+			} else if at(t.Roots, 0) != want[0] {
+				what = "other-root"
+			}
+			res.Hit("probe:deploy-at-system-address:" + name + "-" + what)
+		}
+	}
+}
+
+func runTemp(b core.TempTrieBackend, h uint8, f func(core.Trie) error) error {
+	return b.RunOnTempTriePedersen(h, f)
+}
